@@ -27,6 +27,8 @@ func init() {
 			Run: func(P *Program, R *Report) { randomPrimeInRangeRule(P, R, "C19.g") }},
 		Rule{ID: "C19.h", Explain: "ProbablySafePrime is true only if x and x>>1 both pass ProbablyPrime with the caller's round count; safeprime.Generate returns 2q+1 for a candidate q of bitsize-1 bits only after ProbablySafePrime(k >= 40) (same rules as C16.b).",
 			Run: func(P *Program, R *Report) { safeprimeGenerateRule19(P, R) }},
+		Rule{ID: "C19.j", Explain: "package-level big.Int constants (bigONE, bigZERO, two, ...) are only read: never the receiver of a mutating method, never returned to a caller, never stored into a structure - an escaped constant is modified by its new owner's next in-place operation and corrupts every later computation of the process.",
+			Run: func(P *Program, R *Report) { sharedConstantsRule(P, R, "C19.j") }},
 		Rule{ID: "C19.i", Explain: "Group.Exp: a negative exponent is replaced by exponent + group order before use, and the table exponentiation is reached only after the exponent was tested below the group order.",
 			Run: func(P *Program, R *Report) { groupExpRule(P, R) }},
 	)
